@@ -223,7 +223,7 @@ def _construct_helper():
 def _construct_bad():
     def gen(w, rng):
         spec = V.gen_array_spec(rng, w.cfg, min_rank=1)
-        return {"spec": spec, "how": rng.choice(["shape", "dupname", "shape_pairs", "dup_pairs"]),
+        return {"spec": spec, "how": rng.choice(["shape", "dupname", "shape_pairs", "dup_pairs", "dup_dims_only", "dup_helper", "dup_axes_names"]),
                 "k": rng.randrange(len(spec["dims"]))}
 
     def run(w, s):
@@ -244,7 +244,13 @@ def _construct_bad():
             dims[k] = dims[(k + 1) % len(dims)]
             vals = np.zeros([len(l) for l in labs])
         try:
-            if how in ("shape", "dupname"):
+            if how == "dup_dims_only":
+                bad = DimArray(vals, dims=list(dims))
+            elif how == "dup_helper":
+                bad = w.da.zeros(dims=tuple(dims), shape=vals.shape)
+            elif how == "dup_axes_names":
+                bad = DimArray(vals, axes=list(dims))
+            elif how in ("shape", "dupname"):
                 bad = DimArray(vals, [Axis(l, d) for l, d in zip(labs, dims)])
             else:
                 bad = DimArray(vals, axes=[(d, l) for l, d in zip(labs, dims)])
@@ -528,10 +534,21 @@ def _newaxis():
         vals = None
         if rng.random() < 0.5:
             vals = V.gen_labels(rng, rng.randint(1, 3))
-        return {"a": a_id, "name": rng.choice(cand), "values": vals, "pos": rng.choice([0, -1, rng.randint(0, a.ndim)]), "out": out(w)}
+        st = {"a": a_id, "name": rng.choice(cand), "values": vals, "pos": rng.choice([0, -1, rng.randint(0, a.ndim)]), "out": out(w)}
+        if rng.random() < 0.2:
+            b_id = pick_arr(w, rng, lambda b: b.ndim > 0)
+            if b_id is not None and b_id != a_id:
+                st["b"] = b_id
+                st["b_dim"] = rng.randrange(w.arr(b_id).ndim)
+        return st
 
     def run(w, s):
         vals = None if s["values"] is None else V.label_array(s["values"])
+        if s.get("b"):
+            b = w.arr(s["b"])
+            if s["b_dim"] >= b.ndim:
+                raise Skip("rank")
+            vals = b.axes[s["b_dim"]]
         return w.arr(s["a"]).newaxis(s["name"], values=vals, pos=s["pos"])
     return gen, run
 
@@ -580,13 +597,26 @@ def _repeat():
             vals = rng.randint(1, 3)
         else:
             vals = V.gen_labels(rng, rng.randint(1, 3))
-        return {"a": a_id, "axis": a.dims[i] if rng.random() < 0.6 else i, "values": vals,
-                "as_axis": r > 0.75, "name": a.dims[i], "out": out(w)}
+        st = {"a": a_id, "axis": a.dims[i] if rng.random() < 0.6 else i, "values": vals,
+              "as_axis": r > 0.75, "name": a.dims[i], "out": out(w)}
+        if rng.random() < 0.25:
+            # the new labels come as the Axis object of another live array (whatever its name)
+            b_id = pick_arr(w, rng, lambda b: b.ndim > 0)
+            if b_id is not None and b_id != a_id:
+                b = w.arr(b_id)
+                st["b"] = b_id
+                st["b_dim"] = rng.randrange(b.ndim)
+        return st
 
     def run(w, s):
         from dimarray import Axis
         a = w.arr(s["a"])
         v = s["values"]
+        if s.get("b"):
+            b = w.arr(s["b"])
+            if s["b_dim"] >= b.ndim:
+                raise Skip("rank")
+            return a.repeat(b.axes[s["b_dim"]], axis=s["axis"])
         if isinstance(v, list):
             v = V.label_array(v)
             if s["as_axis"]:
